@@ -73,7 +73,33 @@ type Burndown struct {
 // ---------------------------------------------------------------------------------------------
 // S-expressions
 
-func S(s string) Sx { return A("\"" + s + "\"") }
+// S writes a string atom.  The trace format splits atoms at white space and parentheses and the Go side re-reads
+// its own lines rune by rune (batch file of the burndown child, replay), so every byte outside the printable ASCII
+// range and the four structural characters ( ) " \ travel as \xHH (round 4: names with invalid UTF-8, NUL, tabs, CR,
+// NBSP ... must arrive byte for byte).  Plain names are written as before.
+func S(s string) Sx {
+	plain := true
+	for i := 0; i < len(s); i++ {
+		if c := s[i]; c < 0x21 || c > 0x7e || c == '(' || c == ')' || c == '"' || c == '\\' {
+			plain = false
+			break
+		}
+	}
+	if plain {
+		return A("\"" + s + "\"")
+	}
+	var sb strings.Builder
+	sb.WriteByte('"')
+	for i := 0; i < len(s); i++ {
+		if c := s[i]; c < 0x21 || c > 0x7e || c == '(' || c == ')' || c == '"' || c == '\\' {
+			fmt.Fprintf(&sb, "\\x%02x", c)
+		} else {
+			sb.WriteByte(c)
+		}
+	}
+	sb.WriteByte('"')
+	return A(sb.String())
+}
 func Strs(tag string, l []string) Sx {
 	xs := make([]Sx, len(l))
 	for i, s := range l {
@@ -86,7 +112,22 @@ func unS(x Sx) string {
 	if len(a) < 2 || a[0] != '"' || a[len(a)-1] != '"' {
 		panic("not a string atom: " + x.String())
 	}
-	return a[1 : len(a)-1]
+	a = a[1 : len(a)-1]
+	if !strings.Contains(a, "\\") {
+		return a
+	}
+	var sb strings.Builder
+	for i := 0; i < len(a); i++ {
+		if a[i] == '\\' && i+3 < len(a) && a[i+1] == 'x' {
+			if v, err := strconv.ParseUint(a[i+2:i+4], 16, 8); err == nil {
+				sb.WriteByte(byte(v))
+				i += 3
+				continue
+			}
+		}
+		sb.WriteByte(a[i])
+	}
+	return sb.String()
 }
 func unStrs(x Sx) []string {
 	res := []string{}
@@ -389,11 +430,36 @@ func code(m leaves.DenseHistory) int64 {
 	}
 	return s
 }
+// alignSx pictures WHERE the values of a merged history sit (round 4, alignment of the two tick grids): the number of
+// rows, the length of the last row, and for every non-zero cell of the last row (band, value, first sample in which
+// that band is non-zero).  The inputs of the pair streams are [[2^k]] with sampling = granularity = 1: such a value
+// must appear in band = sample = (tick 0 of its result - tick 0 of the merged result) and stay there.
+func alignSx(m leaves.DenseHistory) Sx {
+	if len(m) == 0 {
+		return L(I(0), I(0))
+	}
+	last := m[len(m)-1]
+	xs := []Sx{I(len(m)), I(len(last))}
+	for j, v := range last {
+		if v == 0 {
+			continue
+		}
+		first := len(m) - 1
+		for first > 0 && j < len(m[first-1]) && m[first-1][j] != 0 {
+			first--
+		}
+		xs = append(xs, L(I(j), I64(v), I(first)))
+	}
+	return L(xs...)
+}
+
 func burndownOut(r leaves.BurndownResult) Sx {
 	people, ts, sampling, granularity := leaves.VerifC18BurndownResultFields(r)
 	codes := make([]Sx, len(r.PeopleHistories))
+	aligns := make([]Sx, len(r.PeopleHistories))
 	for i, m := range r.PeopleHistories {
 		codes[i] = I64(code(m))
+		aligns[i] = alignSx(m)
 	}
 	pm := make([][]int64, len(r.PeopleMatrix))
 	for i, row := range r.PeopleMatrix {
@@ -401,7 +467,8 @@ func burndownOut(r leaves.BurndownResult) Sx {
 	}
 	return T("bdout", Strs("people", people), T("ticksize", I64(int64(ts))), T("sampling", I(sampling)),
 		T("granularity", I(granularity)), T("global", B(len(r.GlobalHistory) > 0), I64(code(r.GlobalHistory))),
-		T("phcodes", codes...), T("pm", matSx(pm)), T("files", I(len(r.FileHistories)+len(r.FileOwnership))))
+		T("phcodes", codes...), T("pm", matSx(pm)), T("files", I(len(r.FileHistories)+len(r.FileOwnership))),
+		T("align", append([]Sx{alignSx(r.GlobalHistory)}, aligns...)...))
 }
 
 // ---------------------------------------------------------------------------------------------
@@ -424,6 +491,7 @@ func idTable(rd1, rd2 []string) Sx {
 type input struct {
 	an     string // devs | couples | burndown | common
 	fam    string // "" or the scale family (sc-ids, sc-big): tells the driver to use the fast oracles
+	stream string // "" or the round-4 stream (r4-time, r4-names): recorded only
 	c1, c2 Common
 	dv     [2]Devs
 	cp     [2]Couples
@@ -456,6 +524,9 @@ func (in input) fields() []Sx {
 	fs := []Sx{T("an", A(in.an)), in.c1.sx("c1"), in.c2.sx("c2")}
 	if in.fam != "" {
 		fs = append(fs, T("fam", A(in.fam)))
+	}
+	if in.stream != "" {
+		fs = append(fs, T("stream", A(in.stream)))
 	}
 	switch in.an {
 	case "devs":
@@ -491,6 +562,9 @@ func parseInput(cs Sx) input {
 	in.c2 = parseCommon(must(cs, "c2"))
 	if f, ok := cs.Field("fam"); ok && len(f.Args()) == 1 {
 		in.fam = f.Args()[0].Atom
+	}
+	if f, ok := cs.Field("stream"); ok && len(f.Args()) == 1 {
+		in.stream = f.Args()[0].Atom
 	}
 	switch in.an {
 	case "devs":
@@ -766,7 +840,7 @@ func main() {
 		}
 	}
 	os.Args = args
-	flag.StringVar(&only, "only", "", "restrict the generators to one family (debugging): chain")
+	flag.StringVar(&only, "only", "", "restrict the generators to one family (debugging): chain | r4")
 	c := Setup()
 	defer c.Close()
 	if isChild {
